@@ -630,3 +630,28 @@ def check_placeholder_underscores(ctx, F, rule="E-DDDMP.placeholder"):
     ctx.ob(rule, rule, not fails, "export_common (%s): %s" % (F.where(fid), " || ".join(fails) if fails else
            "invented names start with more underscores than any existing name (counter %d after the model names)" % mut["leading_underscores"]))
     return n
+
+
+def check_import_callers(ctx, F, rule="E-DDDMP.callers"):
+    """`dddmp::import(.., support_vars, ..)` maps the i-th support variable *by level position* to the i-th number its caller
+    supplies; the header accessor with that meaning is `DumpHeader::support_var_order()` (`support_vars()` is the `.ids`
+    list in variable order: equal to it only while the dumped order is the identity).  Sibling rule over all callers in the
+    workspace (CLI, C and Python bindings): a function that calls `import` and derives the mapping from the header reads
+    `support_var_order()`, never `support_vars()`."""
+    from lib import hirutil as H
+    n = 0
+    for fid, h in sorted(F.hir.items()):
+        calls = [c for c in H.calls(h["body"]) if H.callee(c).endswith("dddmp::import::import") or H.callee(c).endswith("dddmp::import")]
+        if not calls or fid.startswith("oxidd_dump::"):
+            continue
+        n += 1
+        reads = {x.get("name") for x in H.walk(h["body"]) if x.get("k") == "mcall" and str(x.get("m", "")).endswith(
+            ("DumpHeader::support_vars", "DumpHeader::support_var_order"))}
+        ok = "support_vars" not in reads
+        ctx.ob(rule, "%s:%s" % (rule, F.nice(fid)), ok,
+               "%s (%s): %s" % (F.nice(fid), F.where(fid), "maps the file's support variables by level position (%s)" %
+                                ("support_var_order()" if reads else "caller-supplied") if ok else
+                                "derives import()'s variable mapping from DumpHeader::support_vars() (the .ids list in variable order) instead of "
+                                "support_var_order(): after any reordering the imported functions are over permuted variables"))
+    ctx.floor(rule, "callers of dddmp::import outside oxidd-dump", n, 2)
+    return n
